@@ -1,4 +1,5 @@
 import JwtProofs.Creds
+import Props.FnTie
 /-!
 # C15 — credential files round-trip the token and the seed
 
